@@ -22,7 +22,8 @@ open Ofx Ofx.Spec.Ofxget Ofx.Spec.Persist
     kind of value.  `low` is what ranks below the files at the second run: the OFX Home record under the id in
     effect then, else `DEFAULTS[k]`. -/
 theorem C18_persist_iff (T : Tables) (hwf : T.WF = true) (hnd : (T.configurable.map (·.1)).Nodup)
-    (lookup : Str → Option OhRec) (fidb user : FileC) (c1 : Chain) (uuid : Str) (cfg' : Ini) (s : Str)
+    (lookup : Str → Option OhRec) (ns1 : Map) (lowSave : Option CfgVal)
+    (fidb user : FileC) (c1 : Chain) (uuid : Str) (cfg' : Ini) (s : Str)
     (hs : s ≠ defaultSect) (hnick : serverNick c1 = .ok s)
     (hmk : mkServerCfg T c1 (loadUser fidb user) (loadLib fidb) user uuid = .ok cfg')
     (k : Name) (ty : CfgTy) (hkt : (k, ty) ∈ T.configurable) (v : CfgVal) (hv : effective c1 k = some v)
@@ -34,7 +35,7 @@ theorem C18_persist_iff (T : Tables) (hwf : T.WF = true) (hnd : (T.configurable.
     (hk2 : (extractns ns2).lookup k = none)
     (h2 : mergeConfig T lookup ns2 (loadUser fidb cfg'.toFile) = .ok c2) :
     effective c2 k = effective c1 k ↔
-      PersistOk T (viewOf fidb user uuid s k ty v ((libCfg.lookup k).getD d)
+      PersistOk T (viewOf ns1 fidb user uuid s k ty v ((libCfg.lookup k).getD d) lowSave
         (lowOf T lookup (effective c2 "ofxhome".toList) k)) = true := by
   have hlow : ∀ ot ∈ T.configurable, lower ot.1 = ot.1 := by
     simp only [Tables.WF, Bool.and_eq_true] at hwf
@@ -51,7 +52,7 @@ theorem C18_persist_iff (T : Tables) (hwf : T.WF = true) (hnd : (T.configurable.
     have hr := rerun_effective T hwf hnd lookup fidb cfg' hcanon s hs hhas k ty hkt ns2 c2 dr hsrv2 hdry2 htd hk2 h2
     rw [hv]
     unfold PersistOk
-    rw [saves_viewOf fidb user uuid s hs k ty v d libCfg _ g hg]
+    rw [saves_viewOf ns1 fidb user uuid s hs k ty v d libCfg lowSave _ g hg]
     cases hsv : turnSaves (reloadCfg (loadUser fidb user) user uuid) libCfg s k v d g with
     | true =>
       obtain ⟨txt, htxt, hlk⟩ := hlook.1 hsv
@@ -63,23 +64,23 @@ theorem C18_persist_iff (T : Tables) (hwf : T.WF = true) (hnd : (T.configurable.
       have hlk := hlook.2 hsv
       have hdl : cfg'.look defaultSect k = (reloadCfg (loadUser fidb user) user uuid).look defaultSect k := by
         rw [look_default, look_default, hdef]
-      rw [hlk, hdl, ← keptText_viewOf fidb user uuid s hs k ty v ((libCfg.lookup k).getD d)
+      rw [hlk, hdl, ← keptText_viewOf ns1 fidb user uuid s hs k ty v ((libCfg.lookup k).getD d) lowSave
         (lowOf T lookup (effective c2 "ofxhome".toList) k)] at hr
       simp only [Bool.false_eq_true, if_false, keptReads]
       split at hr
       · rename_i t ht
         obtain ⟨tv, htv, heff⟩ := hr
         rw [ht]
-        have hty : (viewOf fidb user uuid s k ty v ((libCfg.lookup k).getD d)
+        have hty : (viewOf ns1 fidb user uuid s k ty v ((libCfg.lookup k).getD d) lowSave
           (lowOf T lookup (effective c2 "ofxhome".toList) k)).ty = ty := rfl
-        have hvv : (viewOf fidb user uuid s k ty v ((libCfg.lookup k).getD d)
+        have hvv : (viewOf ns1 fidb user uuid s k ty v ((libCfg.lookup k).getD d) lowSave
           (lowOf T lookup (effective c2 "ofxhome".toList) k)).v = v := rfl
         simp only [hty, hvv, htv, heff, Option.some.injEq, beq_iff_eq]
       · rename_i ht
         rw [ht]
-        have hvv : (viewOf fidb user uuid s k ty v ((libCfg.lookup k).getD d)
+        have hvv : (viewOf ns1 fidb user uuid s k ty v ((libCfg.lookup k).getD d) lowSave
           (lowOf T lookup (effective c2 "ofxhome".toList) k)).v = v := rfl
-        have hll : (viewOf fidb user uuid s k ty v ((libCfg.lookup k).getD d)
+        have hll : (viewOf ns1 fidb user uuid s k ty v ((libCfg.lookup k).getD d) lowSave
           (lowOf T lookup (effective c2 "ofxhome".toList) k)).low =
             lowOf T lookup (effective c2 "ofxhome".toList) k := rfl
         simp only [hvv, hll, hr, beq_iff_eq]
@@ -239,6 +240,13 @@ structure ViewConsistent (T : Tables) (w : View) : Prop where
   /-- … else the built-in default, which is also what ranks lowest at the next run (OFX Home only sets options
       whose built-in default is empty) -/
   lowLib : w.fiSect = none → w.fiDflt = none → isNullArg w.libDefault = false → w.low = some w.libDefault
+  /-- what the saving run read: an option the command line does not give — the nickname having a section, or the
+      DEFAULT section being silent, and the DEFAULT-section CLIENTUID not being a fresh one — has the typed reading
+      of the text the files hold for it in effect, else what ranked below the files at that run -/
+  saveRead : w.cliSet = false → (w.known = true ∨ w.dflt = none) → freshUid w = false →
+    match keptText w with
+    | some t => typedOfStr T w.ty t = .ok w.v
+    | none => w.lowSave = some w.v
 
 /-- an option skipped as "equal to the library default, nothing stored" always persists -/
 theorem skipDefault_PersistOk (T : Tables) (w : View) (hc : ViewConsistent T w) (hnull : isNullArg w.v = false)
@@ -260,13 +268,15 @@ theorem skipDefault_PersistOk (T : Tables) (w : View) (hc : ViewConsistent T w) 
     rw [hc.lowLib hfs hfd (by rw [← hveq]; exact hnull), hveq]
     simp
 
-/-- **C18_no_sixth_way.**  Inside the typed domain an option that does not persist is lost in one of the seven
+/-- **C18_no_sixth_way.**  (Every label of `lossClass` has a test of its own; `unexpected` is what passes none: it is
+    excluded here by proof, from `ViewConsistent`, not by the shape of the classifier.)
+    Inside the typed domain an option that does not persist is lost in one of the seven
     named ways — the five known findings (`cliNull`, `defaultSectionIgnored`, `uidEqualsGlobal`, `strEdgeBlank`,
     `listMember`), the designed first global CLIENTUID (`freshGlobalUid`), or an empty value whose lower-ranking
     places changed under it (`emptyFollows`) — never otherwise: integers and booleans always read back, and an
     option left out as "equal to the library default" is always back by itself. -/
-theorem C18_no_sixth_way (T : Tables) (hb : T.BoolOk = true) (w : View) (hc : ViewConsistent T w) (cliSet known : Bool) :
-    lossClass T w cliSet known ≠ some .unexpected := by
+theorem C18_no_sixth_way (T : Tables) (hb : T.BoolOk = true) (w : View) (hc : ViewConsistent T w) :
+    lossClass T w ≠ some .unexpected := by
   unfold lossClass
   cases hok : PersistOk T w with
   | true => simp
@@ -310,11 +320,44 @@ theorem C18_no_sixth_way (T : Tables) (hb : T.BoolOk = true) (w : View) (hc : Vi
       cases hn : isNullArg w.v with
       | true =>
         simp only [if_true]
-        split
-        · simp
-        · split
-          · simp
-          · split <;> simp
+        by_cases h1 : w.cliSet = true
+        · simp [h1]
+        · by_cases h2 : freshUid w = true
+          · simp [h1, h2]
+          · by_cases h3 : (!w.known && w.dflt.isSome) = true
+            · simp only [h1, h2, h3, if_true, if_false, Bool.false_eq_true]; simp
+            · by_cases h4 : (w.low != w.lowSave) = true
+              · simp only [h1, h2, h3, h4, if_true, if_false, Bool.false_eq_true]; simp
+              · exfalso
+                have hcs : w.cliSet = false := Bool.eq_false_iff.mpr h1
+                have hfu : freshUid w = false := Bool.eq_false_iff.mpr h2
+                have hkn : w.known = true ∨ w.dflt = none := by
+                  cases hk : w.known with
+                  | true => exact Or.inl rfl
+                  | false =>
+                    right
+                    cases hd : w.dflt with
+                    | none => rfl
+                    | some x => simp [hk, hd] at h3
+                have hlo : w.low = w.lowSave := by
+                  cases hq : (w.low != w.lowSave) with
+                  | true => exact absurd hq h4
+                  | false => simpa using hq
+                have hsr := hc.saveRead hcs hkn hfu
+                unfold PersistOk at hok
+                rw [hsv] at hok
+                simp only [Bool.false_eq_true, if_false] at hok
+                unfold keptReads at hok
+                cases hkt : keptText w with
+                | some t =>
+                  rw [hkt] at hsr hok
+                  simp only [hsr, beq_self_eq_true] at hok
+                  cases hok
+                | none =>
+                  rw [hkt] at hsr hok
+                  simp only at hsr hok
+                  rw [hlo, hsr] at hok
+                  simp at hok
       | false =>
         simp only [Bool.false_eq_true, if_false]
         cases hu : uidSkip w with
@@ -468,23 +511,117 @@ theorem reloadCfg_default_incl (fidb user : FileC) (uuid : Str) (k : Name)
     rw [hf] at hbase
     cases h1 : fileLookup user defaultSect k <;> simp [h1] at hbase
 
-/-- **every real run is inside the typed domain of `C18_no_sixth_way`**: for well-formed tables, a value in effect
-    of the option's type (or `None`), the library configuration `read_config(LIBCFG, s)` returned, and whatever OFX
-    Home id is in effect at the next run, the view of the option is consistent -/
+/-- a successful `serverNick` excludes the "URL given as the server positional" detour of `merge_config`: the
+    command-line source is the namespace without its `None` entries -/
+theorem saveRun_sources (T : Tables) (hwf : T.WF = true) (lookup : Str → Option OhRec) (ns1 : Map) (cfg : Ini)
+    (c1 : Chain) (s : Str) (hnick : serverNick c1 = .ok s) (h1 : mergeConfig T lookup ns1 cfg = .ok c1) :
+    ∃ userCfg1, userCfgOf T cfg (extractns ns1) = .ok userCfg1 ∧
+      (∀ k, effective c1 k =
+        firstSetter [extractns ns1, userCfg1, ohSource lookup [extractns ns1, userCfg1, T.defaults], T.defaults] k) ∧
+      effective c1 "ofxhome".toList = Chain.get? [extractns ns1, userCfg1, T.defaults] "ofxhome".toList := by
+  obtain ⟨cli, userCfg1, hu1, hcliEq, he1⟩ := mergeConfig_effective T hwf lookup ns1 _ c1 h1
+  have hcli' : cli = extractns ns1 := by
+    rcases hcliEq with h | ⟨server, _, h⟩
+    · exact h
+    · exfalso
+      have hsn : c1.get? "server".toList = some .null := by
+        have := he1 "server".toList
+        simp only [effective] at this
+        rw [this, h]
+        simp [firstSetter, sloppy, lookup_mapSet]
+      unfold serverNick at hnick
+      rw [hsn] at hnick
+      simp [truthy, bind, Except.bind, pure, Except.pure] at hnick
+  subst hcli'
+  refine ⟨userCfg1, hu1, he1, ?_⟩
+  rw [he1, ohSource_eq_ohRecord, firstSetter_skip _ _ _ _ _ (ohRecord_lookup_ofxhome _ _), firstSetter_eq_get?]
+
+/-- **what the saving run has in effect for an option its command line does not give**: the typed reading of the
+    first text the two files hold for it (server sections, then DEFAULT sections) — provided the nickname has a
+    section, or the DEFAULT sections are silent — else what ranks below the files at that run -/
+theorem saveRun_reads (T : Tables) (hwf : T.WF = true) (hnd : (T.configurable.map (·.1)).Nodup)
+    (lookup : Str → Option OhRec) (fidb user : FileC) (ns1 : Map) (c1 : Chain) (s : Str)
+    (hs : s ≠ defaultSect) (hnick : serverNick c1 = .ok s)
+    (h1 : mergeConfig T lookup ns1 (loadUser fidb user) = .ok c1)
+    (hsrv1 : (extractns ns1).lookup "server".toList = some (.str s))
+    (k : Name) (ty : CfgTy) (hkt : (k, ty) ∈ T.configurable) (v : CfgVal) (hv : effective c1 k = some v)
+    (hcli : (extractns ns1).lookup k = none)
+    (hknown : (fileHasSection fidb s || fileHasSection user s) = true ∨
+      (fileLookup user defaultSect k).or (fileLookup fidb defaultSect k) = none) :
+    match ((fileLookup user s k).or (fileLookup fidb s k)).or
+        ((fileLookup user defaultSect k).or (fileLookup fidb defaultSect k)) with
+    | some t => typedOfStr T ty t = .ok v
+    | none => lowOf T lookup (effective c1 "ofxhome".toList) k = some v := by
+  obtain ⟨userCfg1, hu1, he1, hoh1⟩ := saveRun_sources T hwf lookup ns1 _ c1 s hnick h1
+  have hrc1 : readConfig T (loadUser fidb user) s = .ok userCfg1 := by
+    unfold userCfgOf at hu1
+    rw [hsrv1] at hu1
+    exact hu1
+  have hty := configurable_lookup_of_mem T hnd k ty hkt
+  have hl1 : match ((fileLookup user s k).or (fileLookup fidb s k)).or
+        ((fileLookup user defaultSect k).or (fileLookup fidb defaultSect k)) with
+      | none => userCfg1.lookup k = none
+      | some t => ∃ tv, typedOfStr T ty t = .ok tv ∧ userCfg1.lookup k = some tv := by
+    by_cases hkn : (fileHasSection fidb s || fileHasSection user s) = true
+    · have hcont1 : (loadUser fidb user).contains s = true := by rw [loadUser_contains _ _ _ hs]; exact hkn
+      have := readConfig_lookup T _ s userCfg1 hs hcont1 hrc1 k ty hty
+      rw [raw_layering fidb user s k hs] at this
+      exact this
+    · have hknf : (fileHasSection fidb s || fileHasSection user s) = false := Bool.eq_false_iff.mpr hkn
+      have hdn : (fileLookup user defaultSect k).or (fileLookup fidb defaultSect k) = none := by
+        rcases hknown with h | h
+        · exact absurd h hkn
+        · exact h
+      have hcont1 : (loadUser fidb user).contains s = false := by rw [loadUser_contains _ _ _ hs]; exact hknf
+      have hempty : userCfg1 = [] := by
+        unfold readConfig at hrc1
+        simp only [hcont1, Bool.not_false, if_true, Except.ok.injEq] at hrc1
+        exact hrc1.symm
+      simp only [Bool.or_eq_false_iff] at hknf
+      rw [fileLookup_no_section user s k hknf.2, fileLookup_no_section fidb s k hknf.1, hdn, hempty]
+      rfl
+  split
+  · rename_i t ht
+    rw [ht] at hl1
+    obtain ⟨tv, htv, hlk⟩ := hl1
+    rw [he1 k] at hv
+    simp only [firstSetter, hcli, hlk, Option.some.injEq] at hv
+    rw [← hv]; exact htv
+  · rename_i ht
+    rw [ht] at hl1
+    simp only at hl1
+    rw [← hv, hoh1, he1 k]
+    simp only [firstSetter, hcli, hl1, lowOf, ohSource_eq_ohRecord]
+
+theorem known_viewOf (fidb user : FileC) (s : Str) (hs : s ≠ defaultSect) :
+    (loadUser fidb user).hasSection s = (fileHasSection fidb s || fileHasSection user s) := by
+  have := loadUser_contains fidb user s hs
+  have hsf : (s == defaultSect) = false := by simpa using hs
+  simpa [Ini.contains, hsf] using this
+
+/-- **every real run is inside the domain of `C18_no_sixth_way`**: for well-formed tables, a saving run
+    `merge_config(ns1)` under the nickname `s`, a value in effect of the option's type (or `None`), the library
+    configuration `read_config(LIBCFG, s)` returned, `lowSave` what ranked below the files at the saving run, and
+    whatever OFX Home id is in effect at the next run, the view of the option — with `cliSet` and `known` read off
+    the command line and the two files — is consistent -/
 theorem viewOf_consistent (T : Tables) (hwf : T.WF = true) (hnd : (T.configurable.map (·.1)).Nodup)
-    (hoh : T.OhDefaultsEmpty = true) (lookup : Str → Option OhRec) (fidb user : FileC) (uuid s : Str)
-    (hs : s ≠ defaultSect) (k : Name) (ty : CfgTy) (hkt : (k, ty) ∈ T.configurable) (v : CfgVal)
+    (hoh : T.OhDefaultsEmpty = true) (lookup : Str → Option OhRec) (ns1 : Map) (fidb user : FileC) (c1 : Chain)
+    (uuid s : Str) (hs : s ≠ defaultSect) (hnick : serverNick c1 = .ok s)
+    (h1 : mergeConfig T lookup ns1 (loadUser fidb user) = .ok c1)
+    (hsrv1 : (extractns ns1).lookup "server".toList = some (.str s))
+    (k : Name) (ty : CfgTy) (hkt : (k, ty) ∈ T.configurable) (v : CfgVal) (hv : effective c1 k = some v)
     (hvt : typeOfVal v = some ty ∨ v = .null)
     (libCfg : Map) (hlib : readConfig T (loadLib fidb) s = .ok libCfg)
     (d : CfgVal) (hd : T.defaults.lookup k = some d) (id : Option CfgVal) :
-    ViewConsistent T (viewOf fidb user uuid s k ty v ((libCfg.lookup k).getD d) (lowOf T lookup id k)) := by
+    ViewConsistent T (viewOf ns1 fidb user uuid s k ty v ((libCfg.lookup k).getD d)
+      (lowOf T lookup (effective c1 "ofxhome".toList) k) (lowOf T lookup id k)) := by
   obtain ⟨hsome, hnone, htyped⟩ := libCfg_lookup T hnd fidb s hs libCfg hlib k ty hkt
   have hdty : typeOfVal d = some ty := by
     simp only [Tables.WF, Bool.and_eq_true] at hwf
     have := List.all_eq_true.mp hwf.1.1.1.2 (k, ty) hkt
     simp only [hd, Option.bind_some, beq_iff_eq] at this
     exact this
-  refine ⟨hvt, ?_, ?_, ?_, ?_⟩
+  refine ⟨hvt, ?_, ?_, ?_, ?_, ?_⟩
   · show typeOfVal ((libCfg.lookup k).getD d) = some ty
     cases hl : libCfg.lookup k with
     | none => exact hdty
@@ -513,6 +650,73 @@ theorem viewOf_consistent (T : Tables) (hwf : T.WF = true) (hnd : (T.configurabl
       simp only [hd] at this
       rw [this] at h3'
       cases h3'
+  · -- what the saving run read
+    intro hcs hkn hfu
+    have hcli : (extractns ns1).lookup k = none := by
+      have : ((extractns ns1).lookup k).isSome = false := hcs
+      cases hl : (extractns ns1).lookup k with
+      | none => rfl
+      | some x => rw [hl] at this; cases this
+    have hkn' : (loadUser fidb user).hasSection s = true ∨
+        (reloadCfg (loadUser fidb user) user uuid).defaults.lookup k = none := hkn
+    rw [known_viewOf fidb user s hs] at hkn'
+    have hfu' : ((k == "clientuid".toList) &&
+        ((reloadCfg (loadUser fidb user) user uuid).look s k).isNone &&
+        ((loadLib fidb).look s k).isNone &&
+        ((reloadCfg (loadUser fidb user) user uuid).defaults.lookup k).isSome &&
+        ((reloadCfg (loadUser fidb user) user uuid).defaults.lookup k ==
+          (reloadCfg (loadUser fidb user) user uuid).defaults.lookup "clientuid".toList)) = false := by
+      have := hfu
+      simpa only [freshUid, viewOf, Ini.look, hs, if_false] using this
+    rw [reloadCfg_look_sect _ user uuid s hs k, loadLib_look] at hfu'
+    rw [keptText_viewOf ns1 fidb user uuid s hs k ty v _ _ _, reloadCfg_look_sect _ user uuid s hs k,
+      fileLookup_strip]
+    show match ((fileLookup user s k).or (fileLookup fidb s k)).or
+          ((((reloadCfg (loadUser fidb user) user uuid).look defaultSect k).map strip).or
+            (fileLookup fidb defaultSect k)) with
+      | some t => typedOfStr T ty t = .ok v
+      | none => lowOf T lookup (effective c1 "ofxhome".toList) k = some v
+    cases hA : (fileLookup user s k).or (fileLookup fidb s k) with
+    | some t0 =>
+      -- a server section holds the option: both runs read it there; the nickname is known
+      have hknown : (fileHasSection fidb s || fileHasSection user s) = true := by
+        cases hkk : (fileHasSection fidb s || fileHasSection user s) with
+        | true => rfl
+        | false =>
+          simp only [Bool.or_eq_false_iff] at hkk
+          rw [fileLookup_no_section user s k hkk.2, fileLookup_no_section fidb s k hkk.1] at hA
+          cases hA
+      have := saveRun_reads T hwf hnd lookup fidb user ns1 c1 s hs hnick h1 hsrv1 k ty hkt v hv hcli (Or.inl hknown)
+      rw [hA] at this
+      simpa using this
+    | none =>
+      have hu : fileLookup user s k = none := by cases h : fileLookup user s k <;> simp_all
+      have hf : fileLookup fidb s k = none := by cases h : fileLookup fidb s k <;> simp_all
+      by_cases hkc : k = "clientuid".toList
+      · -- `clientuid` with nothing in a server section: the DEFAULT-section id is the (possibly fresh) global one
+        exfalso
+        subst hkc
+        have hsome := reloadCfg_has_uid (loadUser fidb user) user uuid
+        cases hl : (reloadCfg (loadUser fidb user) user uuid).defaults.lookup "clientuid".toList with
+        | none => rw [hl] at hsome; cases hsome
+        | some g =>
+          rw [hu, hf, hl] at hfu'
+          simp at hfu'
+      · have hD := reloadCfg_look_default fidb user uuid k hkc
+        have hknown : (fileHasSection fidb s || fileHasSection user s) = true ∨
+            (fileLookup user defaultSect k).or (fileLookup fidb defaultSect k) = none := by
+          rcases hkn' with h | h
+          · exact Or.inl h
+          · right; rw [← hD]; exact h
+        have := saveRun_reads T hwf hnd lookup fidb user ns1 c1 s hs hnick h1 hsrv1 k ty hkt v hv hcli hknown
+        rw [hA] at this
+        rw [look_default, hD, map_strip_or, fileLookup_strip, fileLookup_strip]
+        have hB : (((fileLookup user defaultSect k).or (fileLookup fidb defaultSect k)).or
+            (fileLookup fidb defaultSect k)) =
+            (fileLookup user defaultSect k).or (fileLookup fidb defaultSect k) := by
+          cases fileLookup user defaultSect k <;> cases fileLookup fidb defaultSect k <;> rfl
+        rw [hB]
+        simpa using this
 
 /-! ### `emptyFollows` only occurs together with a lost OFX Home id -/
 
@@ -535,8 +739,8 @@ theorem C18_kept_follows_ofxhome (T : Tables) (hwf : T.WF = true) (hnd : (T.conf
     (libCfg : Map) (hlib : readConfig T (loadLib fidb) s = .ok libCfg)
     (d : CfgVal) (hd : T.defaults.lookup k = some d)
     (hcli : (extractns ns1).lookup k = none)
-    (low : Option CfgVal)
-    (hns : saves (viewOf fidb user uuid s k ty v ((libCfg.lookup k).getD d) low) = false)
+    (lowSave low : Option CfgVal)
+    (hns : saves (viewOf ns1 fidb user uuid s k ty v ((libCfg.lookup k).getD d) lowSave low) = false)
     (ns2 : Map) (c2 : Chain) (dr : CfgVal)
     (hsrv2 : (extractns ns2).lookup "server".toList = some (.str s))
     (hdry2 : (extractns ns2).lookup "dryrun".toList = some dr) (htd : truthy dr = true)
@@ -599,7 +803,7 @@ theorem C18_kept_follows_ofxhome (T : Tables) (hwf : T.WF = true) (hnd : (T.conf
   | none => rw [hg] at huid; cases huid
   | some g =>
     have hlook := mkServerCfg_look T hlow hnd c1 _ _ hmem user uuid cfg' s hs hnick hmk k ty hkt v hv libCfg hlib d hd g hg
-    rw [saves_viewOf fidb user uuid s hs k ty v d libCfg low g hg] at hns
+    rw [saves_viewOf ns1 fidb user uuid s hs k ty v d libCfg lowSave low g hg] at hns
     have hlk := hlook.2 hns
     rw [reloadCfg_look_sect _ user uuid s hs k] at hlk
     have hdl : cfg'.look defaultSect k = (fileLookup user defaultSect k).or (fileLookup fidb defaultSect k) := by
@@ -632,20 +836,173 @@ theorem C18_kept_follows_ofxhome (T : Tables) (hwf : T.WF = true) (hnd : (T.conf
       rw [hr, hoh, hoh1, he1 k]
       simp only [firstSetter, hcli, hl1, lowOf, ohSource_eq_ohRecord]
 
+/-! ### what each loss label says (soundness of `lossClass`, label by label) -/
+
+theorem lossClass_none_iff (T : Tables) (w : View) : lossClass T w = none ↔ PersistOk T w = true := by
+  unfold lossClass
+  cases hp : PersistOk T w with
+  | true => simp
+  | false =>
+    simp only [Bool.false_eq_true, if_false]
+    repeat' split
+    all_goals simp
+
+theorem lossClass_cliNull (T : Tables) (w : View) (h : lossClass T w = some .cliNull) :
+    PersistOk T w = false ∧ saves w = false ∧ isNullArg w.v = true ∧ w.cliSet = true := by
+  unfold lossClass at h
+  repeat' split at h
+  all_goals simp_all
+
+theorem lossClass_freshGlobalUid (T : Tables) (w : View) (h : lossClass T w = some .freshGlobalUid) :
+    PersistOk T w = false ∧ saves w = false ∧ isNullArg w.v = true ∧ w.cliSet = false ∧ freshUid w = true := by
+  unfold lossClass at h
+  repeat' split at h
+  all_goals simp_all
+
+theorem lossClass_defaultSectionIgnored (T : Tables) (w : View) (h : lossClass T w = some .defaultSectionIgnored) :
+    PersistOk T w = false ∧ saves w = false ∧ isNullArg w.v = true ∧ w.cliSet = false ∧ w.known = false ∧
+      w.dflt.isSome = true := by
+  unfold lossClass at h
+  repeat' split at h
+  all_goals simp_all
+
+theorem lossClass_emptyFollows (T : Tables) (w : View) (h : lossClass T w = some .emptyFollows) :
+    PersistOk T w = false ∧ saves w = false ∧ isNullArg w.v = true ∧ w.cliSet = false ∧ w.low ≠ w.lowSave := by
+  unfold lossClass at h
+  repeat' split at h
+  all_goals simp_all
+
+theorem lossClass_uidEqualsGlobal (T : Tables) (w : View) (h : lossClass T w = some .uidEqualsGlobal) :
+    PersistOk T w = false ∧ saves w = false ∧ isNullArg w.v = false ∧ uidSkip w = true := by
+  unfold lossClass at h
+  repeat' split at h
+  all_goals simp_all
+
+theorem lossClass_strEdgeBlank (T : Tables) (w : View) (h : lossClass T w = some .strEdgeBlank) :
+    PersistOk T w = false ∧ saves w = true ∧ w.ty = .str := by
+  unfold lossClass at h
+  repeat' split at h
+  all_goals simp_all
+
+theorem lossClass_listMember (T : Tables) (w : View) (h : lossClass T w = some .listMember) :
+    PersistOk T w = false ∧ saves w = true ∧ w.ty = .list ∧ savedReadsBack T .list w.v = false := by
+  unfold lossClass at h
+  repeat' split at h
+  all_goals simp_all [PersistOk]
+
+/-- `strEdgeBlank`, for a value of the option's type: it is a string with a blank at either end -/
+theorem C18_strEdgeBlank_sound (T : Tables) (w : View) (hvt : typeOfVal w.v = some w.ty ∨ w.v = .null)
+    (h : lossClass T w = some .strEdgeBlank) : ∃ s, w.v = .str s ∧ strip s ≠ s := by
+  obtain ⟨hp, hsv, hty⟩ := lossClass_strEdgeBlank T w h
+  have hnn : isNullArg w.v = false := by
+    cases hn : isNullArg w.v with
+    | false => rfl
+    | true => rw [saves_null w hn] at hsv; cases hsv
+  rw [hty] at hvt
+  cases hv : w.v with
+  | str s =>
+    refine ⟨s, rfl, fun hs => ?_⟩
+    have := (C18_strEdgeBlank_iff T w s hsv hty hv).mpr hs
+    rw [hp] at this; cases this
+  | null => rw [hv] at hnn; cases hnn
+  | int _ => rw [hv] at hvt; rcases hvt with h | h <;> cases h
+  | bool _ => rw [hv] at hvt; rcases hvt with h | h <;> cases h
+  | list _ => rw [hv] at hvt; rcases hvt with h | h <;> cases h
+
+/-- **`emptyFollows` means the OFX Home id in effect differs between the two runs** — for the view of a run, whose
+    `lowSave` / `low` are what OFX Home (under the id in effect at the saving / at the next run) and DEFAULTS say -/
+theorem C18_emptyFollows_sound (T : Tables) (lookup : Str → Option OhRec) (ns1 : Map) (fidb user : FileC)
+    (uuid s : Str) (k : Name) (ty : CfgTy) (v ld : CfgVal) (id1 id2 : Option CfgVal)
+    (h : lossClass T (viewOf ns1 fidb user uuid s k ty v ld (lowOf T lookup id1 k) (lowOf T lookup id2 k))
+      = some .emptyFollows) :
+    id2 ≠ id1 ∧ isNullArg v = true ∧ (extractns ns1).lookup k = none := by
+  obtain ⟨_, _, hn, hc, hl⟩ := lossClass_emptyFollows T _ h
+  refine ⟨fun e => ?_, hn, ?_⟩
+  · subst e
+    exact hl rfl
+  · have : ((extractns ns1).lookup k).isSome = false := hc
+    cases hk : (extractns ns1).lookup k with
+    | none => rfl
+    | some x => rw [hk] at this; cases this
+
+/-- **`cliNull` means the saving command line gave the option, with an empty value** (the value in effect) -/
+theorem C18_cliNull_sound (T : Tables) (hwf : T.WF = true) (lookup : Str → Option OhRec) (ns1 : Map)
+    (fidb user : FileC) (c1 : Chain) (uuid s : Str) (hnick : serverNick c1 = .ok s)
+    (h1 : mergeConfig T lookup ns1 (loadUser fidb user) = .ok c1)
+    (k : Name) (ty : CfgTy) (v ld : CfgVal) (hv : effective c1 k = some v) (lowSave low : Option CfgVal)
+    (h : lossClass T (viewOf ns1 fidb user uuid s k ty v ld lowSave low) = some .cliNull) :
+    (extractns ns1).lookup k = some v ∧ isNullArg v = true := by
+  obtain ⟨_, _, hn, hc⟩ := lossClass_cliNull T _ h
+  refine ⟨?_, hn⟩
+  have hc' : ((extractns ns1).lookup k).isSome = true := hc
+  obtain ⟨userCfg1, _, he1, _⟩ := saveRun_sources T hwf lookup ns1 _ c1 s hnick h1
+  cases hk : (extractns ns1).lookup k with
+  | none => rw [hk] at hc'; cases hc'
+  | some x =>
+    have := he1 k
+    rw [hv] at this
+    simp only [firstSetter, hk, Option.some.injEq] at this
+    rw [this]
+
+/-- **`defaultSectionIgnored` means the nickname had no section in either file, the command line did not give the
+    option, its value in effect was empty, and the DEFAULT section the save re-read holds the option** -/
+theorem C18_defaultSectionIgnored_sound (T : Tables) (ns1 : Map) (fidb user : FileC) (uuid s : Str)
+    (hs : s ≠ defaultSect) (k : Name) (ty : CfgTy) (v ld : CfgVal) (lowSave low : Option CfgVal)
+    (h : lossClass T (viewOf ns1 fidb user uuid s k ty v ld lowSave low) = some .defaultSectionIgnored) :
+    (fileHasSection fidb s || fileHasSection user s) = false ∧ (extractns ns1).lookup k = none ∧
+      isNullArg v = true ∧ ((reloadCfg (loadUser fidb user) user uuid).defaults.lookup k).isSome = true := by
+  obtain ⟨_, _, hn, hc, hk, hd⟩ := lossClass_defaultSectionIgnored T _ h
+  refine ⟨?_, ?_, hn, hd⟩
+  · rw [← known_viewOf fidb user s hs]; exact hk
+  · have : ((extractns ns1).lookup k).isSome = false := hc
+    cases hl : (extractns ns1).lookup k with
+    | none => rfl
+    | some x => rw [hl] at this; cases this
+
+/-- **`freshGlobalUid` means the option is `clientuid`, not given on the command line, empty in effect, held by no
+    server section, and the DEFAULT section the save wrote holds the global one** -/
+theorem C18_freshGlobalUid_sound (T : Tables) (ns1 : Map) (fidb user : FileC) (uuid s : Str)
+    (k : Name) (ty : CfgTy) (v ld : CfgVal) (lowSave low : Option CfgVal)
+    (h : lossClass T (viewOf ns1 fidb user uuid s k ty v ld lowSave low) = some .freshGlobalUid) :
+    k = "clientuid".toList ∧ isNullArg v = true ∧ ((extractns ns1).lookup k).isSome = false := by
+  obtain ⟨_, _, hn, hc, hf⟩ := lossClass_freshGlobalUid T _ h
+  refine ⟨?_, hn, hc⟩
+  simp only [freshUid, viewOf, Bool.and_eq_true, beq_iff_eq] at hf
+  exact hf.1.1.1.1
+
+/-- **`uidEqualsGlobal` means the option is `clientuid` and its (non-empty) value in effect equals the global one** -/
+theorem C18_uidEqualsGlobal_sound (T : Tables) (ns1 : Map) (fidb user : FileC) (uuid s : Str)
+    (k : Name) (ty : CfgTy) (v ld : CfgVal) (lowSave low : Option CfgVal)
+    (h : lossClass T (viewOf ns1 fidb user uuid s k ty v ld lowSave low) = some .uidEqualsGlobal) :
+    k = "clientuid".toList ∧ isNullArg v = false ∧
+      ∃ g, (reloadCfg (loadUser fidb user) user uuid).defaults.lookup "clientuid".toList = some g ∧
+        pyEq v (.str g) = true := by
+  obtain ⟨_, _, hn, hu⟩ := lossClass_uidEqualsGlobal T _ h
+  simp only [uidSkip, viewOf, Bool.and_eq_true, beq_iff_eq] at hu
+  refine ⟨hu.1, hn, ?_⟩
+  cases hg : (reloadCfg (loadUser fidb user) user uuid).defaults.lookup "clientuid".toList with
+  | none => rw [hg] at hu; cases hu.2
+  | some g => rw [hg] at hu; exact ⟨g, rfl, hu.2⟩
+
 /-! ### the generated tables; the whole characterisation in one statement -/
 
 theorem C18_generated_boolOk : Generated.ofxgetTables.BoolOk = true := by decide +kernel
 
 theorem C18_generated_ohDefaultsEmpty : Generated.ofxgetTables.OhDefaultsEmpty = true := by decide +kernel
 
-/-- **C18_persist_characterised** — `ofxget` as generated from the source.  For every saving run that gets through
-    `mk_server_cfg` under a nickname other than `DEFAULT`, every CONFIGURABLE option whose value in effect has the
-    option's type (or is `None`), and every next run `ofxget … s --dryrun` that does not give the option:
-    the value is the same **iff** `PersistOk` holds of the option's view, and when it does not hold the loss is one
-    of the named classes — the five known findings, the designed first global CLIENTUID, or an empty value following
-    a lower-ranking place that changed (the OFX Home id) — never anything else. -/
-theorem C18_persist_characterised (lookup : Str → Option OhRec) (fidb user : FileC) (c1 : Chain) (uuid : Str)
-    (cfg' : Ini) (s : Str) (hs : s ≠ defaultSect) (hnick : serverNick c1 = .ok s)
+/-- **C18_persist_characterised** — `ofxget` as generated from the source.  For every saving run
+    `merge_config(ns1)` that gets through `mk_server_cfg` under a nickname other than `DEFAULT`, every CONFIGURABLE
+    option whose value in effect has the option's type (or is `None`), and every next run `ofxget … s --dryrun` that
+    does not give the option: the value is the same **iff** `PersistOk` holds of the option's view; when it does not
+    hold `lossClass` names the way it is lost, and the label is never `unexpected` — by proof (every label has its own
+    test; `cliSet`, `known`, `lowSave` are read off `ns1`, the two files and the saving run, not free);
+    `emptyFollows` implies that the OFX Home id in effect differs between the two runs.  What the other labels say
+    of the run: `C18_cliNull_sound`, `C18_defaultSectionIgnored_sound`, `C18_freshGlobalUid_sound`,
+    `C18_uidEqualsGlobal_sound`, `C18_strEdgeBlank_sound`, `lossClass_listMember`. -/
+theorem C18_persist_characterised (lookup : Str → Option OhRec) (ns1 : Map) (fidb user : FileC) (c1 : Chain)
+    (uuid : Str) (cfg' : Ini) (s : Str) (hs : s ≠ defaultSect) (hnick : serverNick c1 = .ok s)
+    (h1 : mergeConfig Generated.ofxgetTables lookup ns1 (loadUser fidb user) = .ok c1)
+    (hsrv1 : (extractns ns1).lookup "server".toList = some (.str s))
     (hmk : mkServerCfg Generated.ofxgetTables c1 (loadUser fidb user) (loadLib fidb) user uuid = .ok cfg')
     (k : Name) (ty : CfgTy) (hkt : (k, ty) ∈ Generated.ofxgetTables.configurable) (v : CfgVal)
     (hv : effective c1 k = some v) (hvt : typeOfVal v = some ty ∨ v = .null)
@@ -655,36 +1012,25 @@ theorem C18_persist_characterised (lookup : Str → Option OhRec) (fidb user : F
     (hsrv2 : (extractns ns2).lookup "server".toList = some (.str s))
     (hdry2 : (extractns ns2).lookup "dryrun".toList = some dr) (htd : truthy dr = true)
     (hk2 : (extractns ns2).lookup k = none)
-    (h2 : mergeConfig Generated.ofxgetTables lookup ns2 (loadUser fidb cfg'.toFile) = .ok c2)
-    (cliSet known : Bool) :
-    let w := viewOf fidb user uuid s k ty v ((libCfg.lookup k).getD d)
+    (h2 : mergeConfig Generated.ofxgetTables lookup ns2 (loadUser fidb cfg'.toFile) = .ok c2) :
+    let w := viewOf ns1 fidb user uuid s k ty v ((libCfg.lookup k).getD d)
+      (lowOf Generated.ofxgetTables lookup (effective c1 "ofxhome".toList) k)
       (lowOf Generated.ofxgetTables lookup (effective c2 "ofxhome".toList) k)
     (effective c2 k = effective c1 k ↔ PersistOk Generated.ofxgetTables w = true) ∧
-    (effective c2 k = effective c1 k ↔ lossClass Generated.ofxgetTables w cliSet known = none) ∧
-    lossClass Generated.ofxgetTables w cliSet known ≠ some .unexpected := by
+    (effective c2 k = effective c1 k ↔ lossClass Generated.ofxgetTables w = none) ∧
+    lossClass Generated.ofxgetTables w ≠ some .unexpected ∧
+    (lossClass Generated.ofxgetTables w = some .emptyFollows →
+      effective c2 "ofxhome".toList ≠ effective c1 "ofxhome".toList) := by
   intro w
-  have hiff := C18_persist_iff Generated.ofxgetTables Gen.ofxgetTables_wf Gen.configurable_nodup lookup fidb user c1 uuid
+  have hiff := C18_persist_iff Generated.ofxgetTables Gen.ofxgetTables_wf Gen.configurable_nodup lookup ns1
+    (lowOf Generated.ofxgetTables lookup (effective c1 "ofxhome".toList) k) fidb user c1 uuid
     cfg' s hs hnick hmk k ty hkt v hv libCfg hlib d hd ns2 c2 dr hsrv2 hdry2 htd hk2 h2
   have hcons := viewOf_consistent Generated.ofxgetTables Gen.ofxgetTables_wf Gen.configurable_nodup
-    C18_generated_ohDefaultsEmpty lookup fidb user uuid s hs k ty hkt v hvt libCfg hlib d hd
+    C18_generated_ohDefaultsEmpty lookup ns1 fidb user c1 uuid s hs hnick h1 hsrv1 k ty hkt v hv hvt libCfg hlib d hd
     (effective c2 "ofxhome".toList)
-  refine ⟨hiff, ?_, C18_no_sixth_way _ C18_generated_boolOk w hcons cliSet known⟩
-  rw [hiff]
-  show PersistOk Generated.ofxgetTables w = true ↔ lossClass Generated.ofxgetTables w cliSet known = none
-  unfold lossClass
-  cases hp : PersistOk Generated.ofxgetTables w with
-  | true => simp
-  | false =>
-    simp only [Bool.false_eq_true, if_false, false_iff]
-    split
-    · split <;> simp
-    · split
-      · split
-        · simp
-        · split
-          · simp
-          · split <;> simp
-      · split <;> simp
+  refine ⟨hiff, ?_, C18_no_sixth_way _ C18_generated_boolOk w hcons, fun h => ?_⟩
+  · rw [hiff, lossClass_none_iff]
+  · exact (C18_emptyFollows_sound _ lookup ns1 fidb user uuid s k ty v _ _ _ h).1
 
 /-! ### the hypotheses are satisfiable, and two of them follow from the others -/
 
@@ -725,40 +1071,133 @@ example :
         | _, _ => false)
      | .error _ => false) = true := by decide +kernel
 
+/-! ### deciding persistence from the saving run alone: first `ofxhome`, then every option -/
+
+theorem lowOf_ofxhome (T : Tables) (lookup : Str → Option OhRec) (id : Option CfgVal) :
+    lowOf T lookup id "ofxhome".toList = T.defaults.lookup "ofxhome".toList := by
+  simp only [lowOf, firstSetter, ohRecord_lookup_ofxhome]
+  cases T.defaults.lookup "ofxhome".toList <;> rfl
+
+/-- **C18_persist_iff_from_first_run.**  `C18_persist_iff` feeds `PersistOk` with `low`, which depends on the OFX
+    Home id in effect at the NEXT run.  In two steps everything is decided from the saving run and its environment:
+    (1) for the option `ofxhome` itself `low` does not depend on any id (an OFX Home record never sets `ofxhome`), so
+    "`ofxhome` persists" is `PersistOk` of a view computed from the saving run only;
+    (2) if it holds, then for every CONFIGURABLE option the iff holds with `low` computed from the id in effect at
+    the SAVING run. -/
+theorem C18_persist_iff_from_first_run (T : Tables) (hwf : T.WF = true) (hnd : (T.configurable.map (·.1)).Nodup)
+    (lookup : Str → Option OhRec) (ns1 : Map) (fidb user : FileC) (c1 : Chain) (uuid : Str) (cfg' : Ini) (s : Str)
+    (hs : s ≠ defaultSect) (hnick : serverNick c1 = .ok s)
+    (hmk : mkServerCfg T c1 (loadUser fidb user) (loadLib fidb) user uuid = .ok cfg')
+    (libCfg : Map) (hlib : readConfig T (loadLib fidb) s = .ok libCfg)
+    (tyO : CfgTy) (hktO : ("ofxhome".toList, tyO) ∈ T.configurable) (vO : CfgVal)
+    (hvO : effective c1 "ofxhome".toList = some vO) (dO : CfgVal) (hdO : T.defaults.lookup "ofxhome".toList = some dO)
+    (ns2 : Map) (c2 : Chain) (dr : CfgVal)
+    (hsrv2 : (extractns ns2).lookup "server".toList = some (.str s))
+    (hdry2 : (extractns ns2).lookup "dryrun".toList = some dr) (htd : truthy dr = true)
+    (hkO2 : (extractns ns2).lookup "ofxhome".toList = none)
+    (h2 : mergeConfig T lookup ns2 (loadUser fidb cfg'.toFile) = .ok c2) :
+    let wO := viewOf ns1 fidb user uuid s "ofxhome".toList tyO vO ((libCfg.lookup "ofxhome".toList).getD dO)
+      (some dO) (some dO)
+    (effective c2 "ofxhome".toList = effective c1 "ofxhome".toList ↔ PersistOk T wO = true) ∧
+    (PersistOk T wO = true →
+      ∀ (k : Name) (ty : CfgTy), (k, ty) ∈ T.configurable → ∀ v, effective c1 k = some v →
+        ∀ d, T.defaults.lookup k = some d → (extractns ns2).lookup k = none →
+        (effective c2 k = effective c1 k ↔
+          PersistOk T (viewOf ns1 fidb user uuid s k ty v ((libCfg.lookup k).getD d)
+            (lowOf T lookup (effective c1 "ofxhome".toList) k)
+            (lowOf T lookup (effective c1 "ofxhome".toList) k)) = true)) := by
+  intro wO
+  have hO := C18_persist_iff T hwf hnd lookup ns1 (some dO) fidb user c1 uuid cfg' s hs hnick hmk
+    "ofxhome".toList tyO hktO vO hvO libCfg hlib dO hdO ns2 c2 dr hsrv2 hdry2 htd hkO2 h2
+  rw [lowOf_ofxhome, hdO] at hO
+  refine ⟨hO, fun hp k ty hkt v hv d hd hk2 => ?_⟩
+  have hoh := hO.mpr hp
+  have := C18_persist_iff T hwf hnd lookup ns1 (lowOf T lookup (effective c1 "ofxhome".toList) k) fidb user c1 uuid
+    cfg' s hs hnick hmk k ty hkt v hv libCfg hlib d hd ns2 c2 dr hsrv2 hdry2 htd hk2 h2
+  rw [hoh] at this
+  exact this
+
 /-! ### the five known findings, on their recorded witnesses (known_findings.json), fall in their classes -/
 
 private abbrev GT := Generated.ofxgetTables
 
 /-- `cli-null-value-not-saved`: `--user ''` while ofxget.cfg holds `user = bob` -/
 theorem C18_witness_cliNull :
-    lossClass GT (viewOf [] [("srv1".toList, [("user".toList, "bob".toList)])] "U".toList "srv1".toList
-      "user".toList .str (.str []) (.str []) (some (.str []))) true true = some .cliNull := by decide +kernel
+    lossClass GT (viewOf [("user".toList, .str [])] [] [("srv1".toList, [("user".toList, "bob".toList)])]
+      "U".toList "srv1".toList "user".toList .str (.str []) (.str []) (some (.str [])) (some (.str [])))
+      = some .cliNull := by decide +kernel
+
+/-- the same view with the option NOT on the command line is not the view of any run (an empty `user` cannot be in
+    effect while the section says `bob`): it passes no label's test and is `unexpected` — the classifier has no
+    catch-all any more -/
+theorem C18_witness_not_a_run :
+    lossClass GT (viewOf [] [] [("srv1".toList, [("user".toList, "bob".toList)])]
+      "U".toList "srv1".toList "user".toList .str (.str []) (.str []) (some (.str [])) (some (.str [])))
+      = some .unexpected := by decide +kernel
 
 /-- `list-member-characters-lost`: `--checking a,b` -/
 theorem C18_witness_listMember :
-    lossClass GT (viewOf [] [] "U".toList "srv1".toList "checking".toList .list (.list ["a,b".toList]) (.list [])
-      (some (.list []))) true false = some .listMember := by decide +kernel
+    lossClass GT (viewOf [("checking".toList, .list ["a,b".toList])] [] [] "U".toList "srv1".toList
+      "checking".toList .list (.list ["a,b".toList]) (.list []) (some (.list [])) (some (.list [])))
+      = some .listMember := by decide +kernel
 
 /-- `string-edge-blanks-lost`: `--user ' bob'` -/
 theorem C18_witness_strEdgeBlank :
-    lossClass GT (viewOf [] [] "U".toList "srv1".toList "user".toList .str (.str " bob".toList) (.str [])
-      (some (.str []))) true false = some .strEdgeBlank := by decide +kernel
+    lossClass GT (viewOf [("user".toList, .str " bob".toList)] [] [] "U".toList "srv1".toList "user".toList .str
+      (.str " bob".toList) (.str []) (some (.str [])) (some (.str []))) = some .strEdgeBlank := by decide +kernel
 
 /-- `clientuid-equal-to-global-not-saved`: `--clientuid G`, DEFAULT holds `G`, the server's section `S` -/
 theorem C18_witness_uidEqualsGlobal :
-    lossClass GT (viewOf [] [("DEFAULT".toList, [("clientuid".toList, "G".toList)]),
+    lossClass GT (viewOf [("clientuid".toList, .str "G".toList)] []
+      [("DEFAULT".toList, [("clientuid".toList, "G".toList)]),
         ("srv1".toList, [("clientuid".toList, "S".toList)])] "U".toList "srv1".toList "clientuid".toList .str
-      (.str "G".toList) (.str []) (some (.str []))) true true = some .uidEqualsGlobal := by decide +kernel
+      (.str "G".toList) (.str []) (some (.str [])) (some (.str []))) = some .uidEqualsGlobal := by decide +kernel
 
 /-- `default-section-ignored-for-new-server`: DEFAULT holds `bankid = 123`, the nickname is new -/
 theorem C18_witness_defaultSectionIgnored :
-    lossClass GT (viewOf [] [("DEFAULT".toList, [("clientuid".toList, "G".toList), ("bankid".toList, "123".toList)])]
-      "U".toList "new".toList "bankid".toList .str (.str []) (.str []) (some (.str []))) false false
+    lossClass GT (viewOf [] []
+      [("DEFAULT".toList, [("clientuid".toList, "G".toList), ("bankid".toList, "123".toList)])]
+      "U".toList "new".toList "bankid".toList .str (.str []) (.str []) (some (.str [])) (some (.str [])))
       = some .defaultSectionIgnored := by decide +kernel
+
+/-- `emptyFollows`: `org` empty at the saving run (no OFX Home id in effect), an OFX Home record says `ORG` at the
+    next run -/
+theorem C18_witness_emptyFollows :
+    lossClass GT (viewOf [] [] [("srv1".toList, [])] "U".toList "srv1".toList "org".toList .str (.str []) (.str [])
+      (some (.str [])) (some (.str "ORG".toList))) = some .emptyFollows := by decide +kernel
 
 /-- and a plain saved value persists: `--version 102` -/
 theorem C18_witness_ok :
-    lossClass GT (viewOf [] [] "U".toList "srv1".toList "version".toList .int (.int 102) (.int 203)
-      (some (.int 203))) true false = none := by decide +kernel
+    lossClass GT (viewOf [("version".toList, .int 102)] [] [] "U".toList "srv1".toList "version".toList .int
+      (.int 102) (.int 203) (some (.int 203)) (some (.int 203))) = none := by decide +kernel
+
+/-- joint non-vacuity of `C18_kept_follows_ofxhome`: `ofxget stmt srv1 --write --url https://h/ --version 102` on
+    an ofxget.cfg that has the section, `k = user` (empty, not given, not saved), next run `ofxget stmt srv1
+    --dryrun`: every decidable hypothesis holds together (both `merge_config`s and the save succeed, the nickname is
+    `srv1` and known, `user` is CONFIGURABLE, not `clientuid`, not on either command line, `saves = false`, the OFX
+    Home id is the same at both runs) — and so does the conclusion -/
+theorem C18_kept_follows_ofxhome_witness :
+    (match mergeConfig GT (fun _ => none)
+        (nsWrite [("url".toList, .str "https://h/".toList), ("version".toList, .int 102)])
+        (loadUser [] [("srv1".toList, [])]) with
+     | .ok c1 =>
+       (match serverNick c1,
+          mkServerCfg GT c1 (loadUser [] [("srv1".toList, [])]) (loadLib []) [("srv1".toList, [])] "U".toList,
+          readConfig GT (loadLib []) "srv1".toList, effective c1 "user".toList, GT.defaults.lookup "user".toList with
+        | .ok s, .ok cfg', .ok libCfg, some v, some d =>
+          s == "srv1".toList && (fileHasSection [] s || fileHasSection [("srv1".toList, [])] s) &&
+          GT.configurable.contains ("user".toList, .str) &&
+          ((extractns (nsWrite [("url".toList, .str "https://h/".toList), ("version".toList, .int 102)])).lookup
+            "user".toList).isNone &&
+          !saves (viewOf (nsWrite [("url".toList, .str "https://h/".toList), ("version".toList, .int 102)]) []
+            [("srv1".toList, [])] "U".toList s "user".toList .str v ((libCfg.lookup "user".toList).getD d) none none) &&
+          (match mergeConfig GT (fun _ => none) (probeNs (.str s)) (loadUser [] cfg'.toFile) with
+           | .ok c2 =>
+             ((extractns (probeNs (.str s))).lookup "user".toList).isNone &&
+             (effective c2 "ofxhome".toList == effective c1 "ofxhome".toList) &&
+             (effective c2 "user".toList == effective c1 "user".toList)
+           | .error _ => false)
+        | _, _, _, _, _ => false)
+     | .error _ => false) = true := by decide +kernel
 
 end Ofx.Ofxget
